@@ -359,7 +359,7 @@ func (c10) Eval(t *testing.T, c *Case, dec func(int) *Decider) *Outcome {
 		}
 		for i := 0; i < n; i++ {
 			img := co.images[r.Intn(len(co.images))]
-			if img.Inferred || strings.HasSuffix(img.Point, ".mid") || strings.HasPrefix(img.Point, "mutex.") {
+			if img.Inferred || strings.HasSuffix(img.Point, ".mid") || strings.HasPrefix(img.Point, "mutex.") || strings.HasPrefix(img.Point, "auto:") {
 				continue // the real-process writer splits at half, not at the simulated fraction
 			}
 			dir, err := realCrash(bin, sc, img.Point, img.Nth)
